@@ -79,6 +79,28 @@ def run_startpoints(tier, funcs, index, enums, res):
         [n for n, _ in plans], c18_startpoints.VOCAB)
 
 
+def run_exec(prop, tier, funcs, index, enums, res):
+    import c08_exec
+    kinds = ["multi", "multi_dir", "multi_quit"] if prop == "C08" else ["single", "single_dir"]
+    res["target"] = ("process_dir + WalkEntry::from_walkdir + %s (built by the real expression parser from '-exec[dir] cmd ... %s') over a scripted walkdir tree"
+                     % (("MultiExecMatcher::{new,matches,finished_dir,finished,run_command,new_command}", "{} +") if prop == "C08"
+                        else ("SingleExecMatcher::{new,matches}", ";")))
+    for kind in kinds:
+        r = c08_exec.explore(kind, funcs, index, enums)
+        res["functions_executed"].update(r.pop("functions_executed"))
+        for v in r.pop("violations"):
+            res["violations"].append({"key": "%s | %s" % (kind, v["what"][:50]), "summary": "%s: %s (runs %s, depth_first=%s)" % (kind, v["what"], v.get("runs"), v.get("depth_first")),
+                                      "replayer": "exec_cli", "kind": kind, "what": v["what"]})
+        for k, c in r.pop("unsupported").items():
+            res["unsupported"][k] = res["unsupported"].get(k, 0) + c
+        r["bound"] = kind
+        r["inputs_covered"] = r.pop("checks")
+        res["runs"].append(r)
+    res["bounds"] = ("tree %s in pre-order and (-depth) post-order; symbolic: whether each path still fits (argmax's verdict; a fresh command line always admits one path), "
+                     "the outcome of every invocation (exit 0 / non-zero / cannot start), %s" % (
+                         [t[0] for t in c08_exec.TREE], "-quit variant" if prop == "C08" else "two argument templates from %s" % c08_exec.TEMPLATES))
+
+
 def main():
     prop, tier, out = sys.argv[1], sys.argv[2], sys.argv[3]
     t0 = time.time()
@@ -91,6 +113,8 @@ def main():
         run_batching(tier, funcs, index, enums, res)
     elif prop in ("C18", "C02"):
         run_startpoints(tier, funcs, index, enums, res)
+    elif prop in ("C08", "C09"):
+        run_exec(prop, tier, funcs, index, enums, res)
     else:
         raise SystemExit("no MIR-level check for " + prop)
     res["functions_executed"] = sorted(res["functions_executed"])
